@@ -122,7 +122,8 @@ def c01(tier):
                 continue
             Ns = sorted(set([0, 1, 2, B - 1, B, B + 1, 2 * B + 1])) if tier == "quick" else sorted(set([0, 1, 2, 3, B - 1, B, B + 1, 2 * B - 1, 2 * B + 1, 4095, 4097, 8193]))
             Ns = [n for n in Ns if n >= 0]
-            classes = [lc] if tier == "quick" else [lc, ("ext", 0) if lc[1] == 0 else lc, ("zeros", 0), ("ramp", 0) if lc[1] == 0 else lc]
+            steps = [("steps", lc[1])] if T in "si" else []
+            classes = [lc] + steps if tier == "quick" else [lc, ("ext", 0) if lc[1] == 0 else lc, ("zeros", 0), ("ramp", 0) if lc[1] == 0 else lc] + steps
             classes = list(dict.fromkeys(classes))
             gen_core.wr_scenarios(S, fmt, ch, RATE, [T], Ns, rng, splits=0 if tier == "quick" else 2, seeks=False, classes=classes)
     mcs = [gen_core.mc_rw("W", 0, tag=tier[0], maxwrites=1 if tier == "quick" else 2)]
@@ -463,8 +464,12 @@ def c10(tier):
     for k in range(nsh):
         mine = majors[k::nsh]
         lines = ["scn %d kind=c10" % (k + 1)] + enum_lines
+        nsc = 0
         for m in mine:
             for sb in subs:
+                # one scenario per (major, subtype): a call that does not return costs that scenario only (and is reported)
+                nsc += 1
+                lines.append("scn %d kind=c10 fmt=%d" % (1000 * (k + 1) + nsc, m | sb))
                 for en_ in endians:
                     for ch in chans:
                         for r in rates:
@@ -503,6 +508,20 @@ def c10(tier):
 
     def conf(b):
         rp = os.path.join(rd, "t%d_%d_%d.script" % (b["fmt"], b["ch"], b["rate"]))
+        if b["op"] in ("crash", "timeout"):
+            rp = os.path.join(rd, "crash_s%d.script" % b["s"])
+            sc = vlib.scenario_text(open(b["script"]).read().splitlines(), b["s"])
+            open(rp, "w").write("\n".join(sc) + "\n")
+            ep = rp.replace(".script", ".ndjson")
+            vlib.run_driver(exe, rp, ep, timeout=30)
+            v = vlib.validate_trace(ep, "TraceFormat.tla", "TraceFormat.cfg")
+            hit = [x for x in v["bad"] if x["op"] in ("crash", "timeout")]
+            if hit:
+                cfgd = json.loads(open(ep).readline()).get("cfg", {})
+                # the tuple that did not return: the last fmtcheck line before the crash marker is not in the trace; report the scenario's format
+                cfgd["kind"] = "c10"
+                return {"op": hit[0]["op"], "why": hit[0]["why"], "why2": hit[0]["why"], "replay": os.path.relpath(rp, vlib.ROOT), "cfg": cfgd}
+            return None
         if b["op"] == "fmtcheck":
             open(rp, "w").write("scn 1 kind=c10 fmt=%d ch=%d rate=%d\nfmtcheck %d %d %d\n" % (b["fmt"], b["ch"], b["rate"], b["fmt"], b["ch"], b["rate"]))
         else:
